@@ -1,0 +1,295 @@
+//go:build verif
+// +build verif
+
+package optracker
+
+import (
+	"encoding/json"
+	"os"
+	"sync"
+	"sync/atomic"
+)
+
+// Verification hooks (build tag "verif" only; add-only, see verif_off.go).
+//
+// Every linearization point of the OperationTracker (its map, protected by
+// opt.mu) and of an Operation (its phase, protected by op.mu; its context) is
+// reported as one event to an observer, while the lock that protects the change
+// is held. One global mutex (verifMu) orders all events: under it the
+// per-tracker sequence number is taken and the observer is called, so the
+// order of the records is the order in which the changes took effect.
+//
+//   - Cancel: the hook itself cancels the context while holding verifMu (the
+//     code's own op.cancel() that follows is then a no-op), so that a reader
+//     that saw Cancelled() == true can only log after the Cancel event, and a
+//     reader that saw false had read before it.
+//   - Lock order is always opt.mu / op.mu -> verifMu; no hook takes opt.mu or
+//     op.mu while holding verifMu.
+//
+// Off (one atomic load per hook) unless an observer is installed, either by
+// SetVerifObserver or, by default, when the environment variable
+// VERIF_TRACE_FILE names a file: then every event is appended to it as one
+// JSON object per line. Only trackers created while an observer is installed
+// are traced from their initial (empty) state; the first event of a tracker
+// is preceded by an "Init" record.
+//
+// Record: {"pid": process, "tr": tracker number (per process), "seq": n (per tracker, from 1), "ev": name,
+// "cid", "op": small integer identity of the Operation (per tracker, in
+// creation order), "typ", "ph": phase after the event, "canc": context
+// cancelled, ... event specific scalars}. Specification: OpTracker.tla /
+// OpTrackerTrace.tla of the verification framework.
+
+type verifOpData struct {
+	id  int               // identity within the tracker; 0 = not created by a traced tracker
+	opt *OperationTracker // the tracker that created it
+}
+
+type verifOptData struct {
+	tr   int // tracker number (0 = not yet announced)
+	seq  int
+	nops int
+}
+
+var (
+	verifMu       sync.Mutex
+	verifObs      atomic.Value // func(rec map[string]interface{})
+	verifTrackers int
+	verifPid      = os.Getpid()
+)
+
+// SetVerifObserver installs (or, with nil, removes) the observer. It is called
+// with verifMu held: it must not call back into the tracker.
+func SetVerifObserver(f func(rec map[string]interface{})) {
+	verifMu.Lock()
+	defer verifMu.Unlock()
+	if f == nil {
+		verifObs.Store((func(map[string]interface{}))(nil))
+		return
+	}
+	verifObs.Store(f)
+}
+
+func verifObserver() func(map[string]interface{}) {
+	f, _ := verifObs.Load().(func(map[string]interface{}))
+	return f
+}
+
+// VerifTracing reports whether an observer is installed.
+func VerifTracing() bool { return verifObserver() != nil }
+
+func verifTypeName(t OperationType) string {
+	switch t {
+	case OperationPin:
+		return "pin"
+	case OperationUnpin:
+		return "unpin"
+	case OperationRemote:
+		return "remote"
+	case OperationShard:
+		return "shard"
+	}
+	return "unknown"
+}
+
+func verifPhaseName(p Phase) string {
+	switch p {
+	case PhaseError:
+		return "error"
+	case PhaseQueued:
+		return "queued"
+	case PhaseInProgress:
+		return "inprogress"
+	case PhaseDone:
+		return "done"
+	}
+	return "unknown"
+}
+
+// verifEmit reports one event of tracker opt. verifMu must be held.
+func verifEmit(opt *OperationTracker, ev string, op *Operation, kv ...interface{}) {
+	f := verifObserver()
+	if f == nil || opt == nil {
+		return
+	}
+	d := &opt.verif
+	if d.tr == 0 {
+		verifTrackers++
+		d.tr = verifTrackers
+		d.seq = 1
+		f(map[string]interface{}{"pid": verifPid, "tr": d.tr, "seq": 1, "ev": "Init"})
+	}
+	d.seq++
+	rec := map[string]interface{}{"pid": verifPid, "tr": d.tr, "seq": d.seq, "ev": ev}
+	if op != nil {
+		rec["op"] = op.verif.id
+		rec["cid"] = op.pin.Cid.String()
+		rec["typ"] = verifTypeName(op.opType)
+		rec["canc"] = op.ctx.Err() != nil
+	}
+	for i := 0; i+1 < len(kv); i += 2 {
+		rec[kv[i].(string)] = kv[i+1]
+	}
+	f(rec)
+}
+
+// verifOp: op-level event, called with op.mu held (SetPhase, SetError).
+func verifOp(op *Operation, ev string) {
+	if verifObserver() == nil || op.verif.opt == nil {
+		return
+	}
+	verifMu.Lock()
+	verifEmit(op.verif.opt, ev, op, "ph", verifPhaseName(op.phase))
+	verifMu.Unlock()
+}
+
+// verifCancel cancels the operation's context and reports it, atomically with
+// respect to all other events.
+func verifCancel(op *Operation) {
+	if verifObserver() == nil || op.verif.opt == nil {
+		return
+	}
+	verifMu.Lock()
+	first := op.ctx.Err() == nil
+	op.cancel()
+	verifEmit(op.verif.opt, "Cancel", op, "first", first)
+	verifMu.Unlock()
+}
+
+// verifOpt: table-level event about an existing entry, called with opt.mu held.
+//
+//	TrackNew (out=same): an ongoing operation of the same type exists, nil is returned
+//	Replace:  the entry is about to be cancelled and replaced
+//	TSetError: OperationTracker.SetError applies to the entry
+//	CleanDone: CleanAllDone deleted the entry
+func verifOpt(opt *OperationTracker, ev string, op *Operation, typ OperationType, ph Phase) {
+	if verifObserver() == nil {
+		return
+	}
+	verifMu.Lock()
+	switch ev {
+	case "TrackNew":
+		verifEmit(opt, ev, nil, "out", "same", "op", 0, "old", op.verif.id, "cid", op.pin.Cid.String(),
+			"typ", verifTypeName(typ), "ph", verifPhaseName(ph))
+	case "Replace":
+		verifEmit(opt, ev, nil, "old", op.verif.id, "cid", op.pin.Cid.String(),
+			"typ", verifTypeName(typ), "ph", verifPhaseName(ph))
+	default:
+		verifEmit(opt, ev, op)
+	}
+	verifMu.Unlock()
+}
+
+// verifNew: a new operation was stored in the table (opt.mu held). Assigns its identity.
+func verifNew(opt *OperationTracker, op2, old *Operation) {
+	if verifObserver() == nil {
+		return
+	}
+	verifMu.Lock()
+	opt.verif.nops++
+	op2.verif.id = opt.verif.nops
+	op2.verif.opt = opt
+	out, oldid := "new", 0
+	if old != nil {
+		out, oldid = "replaced", old.verif.id
+	}
+	verifEmit(opt, "TrackNew", op2, "out", out, "old", oldid, "ph", verifPhaseName(op2.phase))
+	verifMu.Unlock()
+}
+
+// verifClean: Clean(op) is done (opt.mu held). found/ok: the entry seen before;
+// the entry present now is read back from the map.
+func verifClean(opt *OperationTracker, op, found *Operation, ok bool) {
+	if verifObserver() == nil {
+		return
+	}
+	pre, post := 0, 0
+	if ok && found != nil {
+		pre = found.verif.id
+		if pre == 0 {
+			pre = -1
+		}
+	}
+	if cur, ok2 := opt.operations[op.pin.Cid]; ok2 && cur != nil {
+		post = cur.verif.id
+		if post == 0 {
+			post = -1
+		}
+	}
+	verifMu.Lock()
+	verifEmit(opt, "Clean", op, "pre", pre, "post", post)
+	verifMu.Unlock()
+}
+
+// ---- used by the hooks of pintracker/stateless
+
+// VerifOpEvent reports an event about op on the trace of its tracker.
+func VerifOpEvent(op *Operation, ev string, kv ...interface{}) {
+	if verifObserver() == nil || op == nil || op.verif.opt == nil {
+		return
+	}
+	verifMu.Lock()
+	verifEmit(op.verif.opt, ev, op, kv...)
+	verifMu.Unlock()
+}
+
+// VerifOptEvent reports a tracker-level event.
+func VerifOptEvent(opt *OperationTracker, ev string, kv ...interface{}) {
+	if verifObserver() == nil {
+		return
+	}
+	verifMu.Lock()
+	verifEmit(opt, ev, nil, kv...)
+	verifMu.Unlock()
+}
+
+// VerifBegin takes the event mutex when tracing is on; the caller performs one
+// non-blocking step and must call VerifEnd with the returned value.
+func VerifBegin() bool {
+	if verifObserver() == nil {
+		return false
+	}
+	verifMu.Lock()
+	return true
+}
+
+// VerifEnd reports the step performed since VerifBegin and releases the mutex.
+func VerifEnd(locked bool, op *Operation, ev string, kv ...interface{}) {
+	if !locked {
+		return
+	}
+	if op != nil && op.verif.opt != nil {
+		verifEmit(op.verif.opt, ev, op, kv...)
+	}
+	verifMu.Unlock()
+}
+
+// VerifAtomic runs f and reports ev on opt's trace in one step of the event order.
+func VerifAtomic(opt *OperationTracker, f func(), ev string, kv ...interface{}) {
+	if verifObserver() == nil {
+		return
+	}
+	verifMu.Lock()
+	f()
+	verifEmit(opt, ev, nil, kv...)
+	verifMu.Unlock()
+}
+
+// ---- default observer
+
+func init() {
+	path := os.Getenv("VERIF_TRACE_FILE")
+	if path == "" {
+		return
+	}
+	fh, err := os.OpenFile(path, os.O_CREATE|os.O_WRONLY|os.O_APPEND, 0644)
+	if err != nil {
+		return
+	}
+	SetVerifObserver(func(rec map[string]interface{}) {
+		b, err := json.Marshal(rec)
+		if err != nil {
+			return
+		}
+		fh.Write(append(b, '\n'))
+	})
+}
